@@ -26,6 +26,12 @@ def mintStepOK (cap perBlock cPrev cNow supPrev supNow holdPrev holdNow : Nat) :
   decide (holdNow = holdPrev + (cNow - cPrev)) &&
   decide (cPrev ≤ cNow)
 
+/-- the programme's running total over a history that started with counter c₀ ≤ cap: the counter is
+    c₀ plus everything the BeginBlockers created so far, and never above the cap — across restarts
+    and software upgrades (which must not touch the mint state) -/
+def mintTotalOK (cap c0 mintedSum cNow : Nat) : Bool :=
+  decide (cNow = c0 + mintedSum) && decide (c0 + mintedSum ≤ cap)
+
 /-- a message creates nothing: total supply (per denom, as listed) before = after -/
 def txSupplyOK (before after : List Nat) : Bool := before == after
 
